@@ -35,6 +35,21 @@ Proof.
   - rewrite updT_other in H0 by auto. auto.
 Qed.
 
+Lemma okfinal_c_mono : forall c d i,
+  (forall bm, creg c bm = true -> creg d bm = true) -> okfinal_c c i -> okfinal_c d i.
+Proof.
+  intros c d i H W. destruct i as [k| | | | | | |m a|m a| | | |h dl| |]; simpl in *; auto.
+  destruct a; simpl in *; auto.
+Qed.
+
+Lemma wfinstr_mono : forall c d i,
+  (forall bm, creg c bm = true -> creg d bm = true) -> wfinstr c i -> wfinstr d i.
+Proof.
+  intros c d i H W. destruct i as [k| | | | | | |m a|m a| | | |h dl| |]; simpl in *; auto.
+  - destruct k; simpl in *; intuition.
+  - destruct a; simpl in *; auto.
+Qed.
+
 Lemma SInv_same : forall c d,
   c_sl d = c_sl c -> (forall s, c_vlen d s = c_vlen c s) -> (forall bm, c_base d bm = c_base c bm) ->
   SInv c -> SInv d.
@@ -110,7 +125,7 @@ Section HeadStep.
     intros u j Hj.
     assert (W : wfinstr c j).
     { destruct (hs_new j u Hj) as [H|[_ H]]; [eapply i_wf; eauto | apply Hnew_wf; auto]. }
-    destruct j as [k| | | | | | | | | | | | | |]; simpl in *; auto. destruct k; simpl in *; rewrite ?hs_creg; auto.
+    eapply wfinstr_mono; [|exact W]. intros bm Hb. rewrite hs_creg. exact Hb.
   Qed.
 
   Lemma hs_drain : drain_ok (c_cont c' main).
@@ -133,8 +148,12 @@ Section HeadStep.
     - apply Hnew_mo; auto.
   Qed.
 
-  Lemma hs_final : forall u j, In j (c_final c' u) -> okfinal j.
-  Proof. intros u j. rewrite Hfin. apply i_final; auto. Qed.
+  Lemma hs_final : forall u j, In j (c_final c' u) -> okfinal_c c' j.
+  Proof.
+    intros u j Hj. rewrite Hfin in Hj. apply (i_final c I) in Hj.
+    destruct j as [k| | | | | | |m a|m a| | | |h dl| |]; simpl in *; auto. destruct a; simpl in *; auto.
+    rewrite hs_creg. auto.
+  Qed.
 
   Lemma hs_slab : SInv c'.
   Proof. eapply SInv_same; eauto. apply i_slab; auto. Qed.
@@ -786,12 +805,12 @@ Proof.
   assert (Hin : forall j, In j (c_cont c main) -> ~ consumable j -> In j (c_cont c' main)).
   { intros j Hj Hn. eapply hs_in_main; eauto. }
   assert (Hnewwf : forall j, In j new -> wfinstr c j).
-  { intros j Hj. apply Hnew in Hj. destruct j as [k| | | | | | | | | | | | | |]; simpl in *; auto.
+  { intros j Hj. apply Hnew in Hj. destruct j as [k| | | | | | |m a|m a| | | |h0 dl| |]; simpl in *; try tauto.
     destruct k; simpl in *; tauto. }
   assert (Hnewnd : forall j, In j new -> is_drain j = false).
-  { intros j Hj. apply Hnew in Hj. destruct j; simpl in *; tauto. }
+  { intros j Hj. apply Hnew in Hj. destruct j as [k| | | | | | |m a|m a| | | |h0 dl| |]; simpl in *; try tauto; auto. }
   assert (Hnewmo : forall j, In j new -> t <> main -> main_only j = false).
-  { intros j Hj Hn. apply Hnew in Hj. destruct j as [k| | | | | | | | | | | | | |]; simpl in *; auto; tauto. }
+  { intros j Hj Hn. apply Hnew in Hj. destruct j as [k| | | | | | |m a|m a| | | |h0 dl| |]; simpl in *; try tauto; auto. }
   constructor.
   - intros h Hh. change (c_new c' h) with (gn h) in Hh. pose proof (Hgn h Hh) as Hn.
     destruct (i_new c I h Hn) as [[j [A B]]|[x [A B]]].
@@ -832,7 +851,12 @@ Definition normable (j : instr) : Prop :=
   | _ => False
   end.
 Definition norm_new_ok (j : instr) : Prop :=
-  match j with IClimb _ | ITopSwap | IBms _ | ILeaves _ _ | IRun => False | _ => True end.
+  match j with
+  | IClimb _ | ITopSwap | IBms _ | ILeaves _ _ | IRun => False
+  | ILock _ (LPush _ _ _) => False
+  | IYieldH HReserved _ => False
+  | _ => True
+  end.
 
 Lemma pres_main_rewrite : forall c s' acc' i r new,
   CInv c ->
@@ -888,10 +912,11 @@ Proof.
     assert (W : wfinstr c j).
     { destruct (Nat.eq_dec t main) as [->|Hn].
       - rewrite updT_same in Hj. apply in_app_or in Hj. destruct Hj as [Hj|Hj].
-        + apply Hnew in Hj. destruct j; simpl in *; auto. contradiction.
+        + apply Hnew in Hj. destruct j as [k| | | | | | |m a|m a| | | |h0 dl| |]; simpl in *; auto; try contradiction;
+            try (destruct a; auto; contradiction); try (destruct h0; auto; contradiction).
         + apply (i_wf c I main). rewrite Hc. right. auto.
       - rewrite updT_other in Hj by auto. apply (i_wf c I t j Hj). }
-    destruct j as [k| | | | | | | | | | | | | |]; simpl in *; auto.
+    eapply wfinstr_mono; [|exact W]. intros bm Hb. rewrite Hcreg. exact Hb.
   - rewrite Hc', updT_same. apply drain_ok_app_nd.
     + intros j Hj. apply Hnew in Hj. destruct j; simpl in *; auto; contradiction.
     + pose proof (i_drain c I) as D. rewrite Hc in D. simpl in D. tauto.
@@ -1060,18 +1085,18 @@ Proof.
   - intros bm a Hl. rewrite El in Hl. destruct (i_leafwf c I bm a Hl). split; auto.
   - intros bm Hs. rewrite Es in Hs. apply Hreg. apply (i_summwf c I); auto.
   - intros t i Hi. rewrite Ec in Hi. pose proof (i_wf c I t i Hi) as W.
-    destruct i as [k| | | | | | | | | | | | | |]; simpl in *; auto. destruct k; simpl in *; intuition.
+    eapply wfinstr_mono; eauto.
   - rewrite Ec. apply (i_drain c I).
   - rewrite Ea, Ec. apply (i_acc c I).
   - intros t Ht i Hi. rewrite Ec in Hi. eapply (i_mainonly c I); eauto.
-  - intros t i Hi. rewrite Ef in Hi. eapply (i_final c I); eauto.
+  - intros t i Hi. rewrite Ef in Hi. eapply okfinal_c_mono; [exact Hreg|]. eapply (i_final c I); eauto.
   - exact S'.
 Qed.
 
 (** ** exit sequence of a piped worker *)
-Lemma okfinal_props : forall c i, okfinal i -> wfinstr c i /\ is_drain i = false /\ main_only i = false /\ consumable i.
+Lemma okfinal_props : forall c i, okfinal_c c i -> wfinstr c i /\ is_drain i = false /\ main_only i = false /\ consumable i.
 Proof.
-  intros c i H. destruct i; simpl in *; try contradiction. destruct a; simpl; auto; contradiction.
+  intros c i H. destruct i; simpl in *; try contradiction. destruct a; simpl in *; auto; contradiction.
 Qed.
 
 Lemma pres_final : forall c t, CInv c -> c_cont c t = [] -> CInv (f_final c t).
@@ -1083,7 +1108,7 @@ Proof.
   assert (Hc' : forall u, c_cont c' u = updT (c_cont c) t (new ++ []) u).
   { intro u. unfold c', f_final, new. simpl. rewrite app_nil_r. reflexivity. }
   assert (Hpre : forall j, In j (@nil instr) -> j <> IRun /\ (forall l, j <> IHandlers l)) by (intros j []).
-  assert (Hnewok : forall j, In j new -> okfinal j) by (intros j Hj; apply (i_final c I t j Hj)).
+  assert (Hnewok : forall j, In j new -> okfinal_c c j) by (intros j Hj; apply (i_final c I t j Hj)).
   assert (Hkeepc : forall u k, cclimbing c u k -> cclimbing c' u k).
   { intros u k Hk. destruct (Nat.eq_dec u t) as [->|Hn].
     - destruct Hk as [r' Hk]. rewrite Hc in Hk. discriminate.
@@ -1119,17 +1144,19 @@ Proof.
   - eapply (hs_acc c c' t); eauto; reflexivity.
   - eapply (hs_mainonly c c' t); eauto. intros j Hj _. apply (okfinal_props c j). auto.
   - intros u j Hj. unfold c', f_final in Hj. simpl in Hj. unfold updT in Hj.
-    destruct (Nat.eqb u t); [destruct Hj|]. eapply (i_final c I); eauto.
+    destruct (Nat.eqb u t); [destruct Hj|].
+    eapply okfinal_c_mono; [|eapply (i_final c I); eauto]. auto.
   - eapply (hs_slab c c'); eauto; reflexivity.
 Qed.
 
-Lemma pres_setfinal : forall c t f, CInv c -> (forall i, In i f -> okfinal i) -> CInv (f_setfinal c t f).
+Lemma pres_setfinal : forall c t f, CInv c -> (forall i, In i f -> okfinal_c c i) -> CInv (f_setfinal c t f).
 Proof.
   intros c t f I Hf.
   pose proof (i_final c I) as Hfin. pose proof (i_slab c I) as S.
   constructor; try (apply I; fail).
   - intros u j Hj. unfold f_setfinal in Hj. simpl in Hj. unfold updT in Hj.
-    destruct (Nat.eqb u t); auto. eapply Hfin; eauto.
+    assert (W : okfinal_c c j) by (destruct (Nat.eqb u t); auto; eapply Hfin; eauto).
+    eapply okfinal_c_mono; [|exact W]. auto.
   - eapply SInv_same; [| | |exact S]; reflexivity.
 Qed.
 
